@@ -142,7 +142,7 @@ func runPath(P *Prog, sol, alt, cross *Solver, crossRate int, root Root, prefix 
 				func() {
 					defer func() { recover() }()
 					m := e.getModel()
-					pr.Probe = &Witness{Nondet: e.tapeValues(m), Chooses: append([]int64{}, e.chooses...), Decs: append([]Dec{}, e.decs...)}
+					pr.Probe = &Witness{Nondet: e.tapeValues(m), Chooses: append([]int64{}, e.chooses...), Decs: append([]Dec{}, e.decs...), Bound: r.kind == "steps"}
 				}()
 			}
 		}
